@@ -93,6 +93,7 @@ impl C15 {
             favored: None,
             locked: None,
             lock_gone: false,
+            hint_unlisted: false,
             hint: if t.chance(1, 3) { Hint::All } else { Hint::None },
             unlisted: vec![],
         });
@@ -105,6 +106,7 @@ impl C15 {
             favored: None,
             locked: None,
             lock_gone: false,
+            hint_unlisted: false,
             hint: Hint::None,
             unlisted: vec![],
         });
@@ -181,6 +183,7 @@ impl C15 {
                 favored: None,
                 locked: None,
                 lock_gone: false,
+                hint_unlisted: false,
                 hint: Hint::All,
                 unlisted: vec![],
             });
@@ -203,6 +206,7 @@ impl C15 {
                 favored: None,
                 locked: None,
                 lock_gone: false,
+                hint_unlisted: false,
                 hint: Hint::None,
                 unlisted: vec![],
             });
@@ -279,6 +283,7 @@ impl C15 {
                     favored: None,
                     locked: None,
                     lock_gone: false,
+                    hint_unlisted: false,
                     hint: Hint::All,
                     unlisted: vec![],
                 });
@@ -301,6 +306,7 @@ impl C15 {
                     favored: None,
                     locked: None,
                     lock_gone: false,
+                    hint_unlisted: false,
                     hint: Hint::None,
                     unlisted: vec![],
                 });
@@ -730,6 +736,7 @@ impl Property for C15Giant {
             favored: None,
             locked: None,
             lock_gone: false,
+            hint_unlisted: false,
             hint: Hint::None,
             unlisted: vec![],
         });
